@@ -282,12 +282,12 @@ def synth(rng: random.Random, layout: str = 'v20', *, compress: tuple = (), orig
     # brushes
     n_br = 2
     if vit:
-        d['BRUSHSIDES'] = b''.join(L['BRUSHSIDE'].pack(i % n_pl, i % n_ti, 0, i % 2, 0) for i in range(5))
+        d['BRUSHSIDES'] = b''.join(L['BRUSHSIDE'].pack(i % n_pl, i % n_ti, 0, i % 2, 0) for i in range(6 if adv else 5))
     else:
-        d['BRUSHSIDES'] = b''.join(L['BRUSHSIDE'].pack(i % n_pl, i % n_ti, 0, (i % 2) | (2 if i == 3 else 0)) for i in range(5))
+        d['BRUSHSIDES'] = b''.join(L['BRUSHSIDE'].pack(i % n_pl, i % n_ti, 0, (i % 2) | (2 if i == 3 else 0)) for i in range(6 if adv else 5))
     if aux == 'zero':
         d['BRUSHSIDES'] = bytes(len(d['BRUSHSIDES']))
-    d['BRUSHES'] = struct.pack('<iii', 0, 3, 1) + struct.pack('<iii', 3, 2, 32 if water else 1)
+    d['BRUSHES'] = struct.pack('<iii', 0, 3, 1) + struct.pack('<iii', 3, 3 if adv else 2, 32 if water else 1)      # adv: side 5 lies on the near-duplicate plane
     # leafs
     n_leaf = 3
     leafs = []
@@ -334,6 +334,10 @@ def synth(rng: random.Random, layout: str = 'v20', *, compress: tuple = (), orig
         '{\n"classname" "logic_relay"\n"targetname" "rl"\n"origin" "0 0 16"\n'
         f'"OnTrigger" "br{sep}Kill{sep}{sep}0.5{sep}-1"\n"OnTrigger" "!self{sep}FireUser1{sep}a b{sep}0{sep}1"\n}}\n'
         '{\n"classname" "info_target"\n"message" "a, b"\n"angles" "0 90 0"\n}\n'
+        # adv: text that the entity writer has to escape again (quote, backslash-n, backslash, tab), blanks at both ends,
+        # braces inside a value, an empty value
+        + ('{\n"classname" "env_message"\n"message" "say \\"hi\\"\\n now"\n"path" "a\\\\b"\n"tabbed" "a\tb"\n"lead" " x "\n'
+           '"brace" "a { b } c"\n"empty" ""\n}\n' if adv else '')
     ).encode('ascii') + b'\x00'
     # visibility (2 clusters; rows of 1 byte, run-length coded)
     if vis:
